@@ -14,7 +14,7 @@ def B(kind, bound):
     return {'kind': kind, 'bound': bound}
 
 
-def K(unit, harness, bounded=None, tier=None, timeout=600, cost=None):
+def K(unit, harness, bounded=None, tier=None, timeout=600, cost=None, jobs=None):
     d = {'unit': unit, 'harness': harness, 'timeout': timeout}
     if bounded:
         d['bounded'] = bounded
@@ -22,6 +22,8 @@ def K(unit, harness, bounded=None, tier=None, timeout=600, cost=None):
         d['tier'] = tier
     if cost:
         d['cost'] = cost
+    if jobs:
+        d['jobs'] = jobs  # memory-heavy harnesses: at most this many CBMC processes at once
     return d
 
 
@@ -170,11 +172,11 @@ TAB_NAMES = ['lang_only', 'lang_region', 'lang_script', 'script_region', 'script
 TAB_SMALL_EQ = [K('langid_tables', n + '_eq_cldr') for n in TAB_NAMES if n != 'lang_only'] + [K('langid_tables', 'lang_only_eq_cldr_ctfe')]
 TAB_SORTED = [K('langid_tables', n + '_sorted') for n in TAB_NAMES]
 TAB_WF = [K('langid_tables', n + '_wf') for n in TAB_NAMES]
-TAB_BIG_EQ = [K('langid_tables', 'lang_only_eq_cldr_%02d' % k, tier='thorough', timeout=2400, cost='5-8 min each') for k in range(14)]
+TAB_BIG_EQ = [K('langid_tables', 'lang_only_eq_cldr_%02d' % k, tier='thorough', timeout=5400, cost='5-8 min and ~10 GB each', jobs=4) for k in range(14)]
 TAB_MISC = [K('langid_tables', 'cldr_version_matches'), K('langid_tables', 'wf_predicates_not_vacuous')]
 CASCADE_QUICK = [K('langid_likely', 'maximize_is_cascade_no_lang', timeout=900), K('langid_likely', 'maximize_is_cascade_lang_specific', timeout=1200),
                  K('langid_likely', 'maximize_full_is_unchanged', timeout=900)]
-CASCADE_FULL = [K('langid_likely', 'maximize_is_cascade_lang', tier='thorough', timeout=3600, cost='19 min')]
+CASCADE_FULL = [K('langid_likely', 'maximize_is_cascade_lang', tier='thorough', timeout=5400, cost='19 min', jobs=2)]
 LIKELY_TRUST = ['ASSUMED std contract: <[T]>::binary_search_by_key on a slice strictly sorted by the key returns Ok(i) with key(s[i]) == k, '
                 'or Err(i) with key(s[i-1]) < k < key(s[i]) (contracts/kani/langid_likely.rs Bs::contract replaces it by kani::stub); strict sortedness of '
                 'each table is the U-TAB obligation *_sorted',
